@@ -9,6 +9,7 @@ from fractions import Fraction
 from . import terms as T
 from .consteval import Dec, Flt, Num
 from .interp import Dead, TupleVal, mk_and, mk_not, mk_or, truth_const
+from .srcmodel import AnalysisError
 from .terms import App, BoolOp, Cmp, Const, Fin, Opaque, P, Term
 
 
@@ -87,6 +88,23 @@ class Canon(object):
                 if d is False:
                     return self.term(t.args[2])
                 a, b = self.term(t.args[1]), self.term(t.args[2])
+                if isinstance(c, Cmp) and c.op in ("<", "<=", ">", ">=") and not T.may_nan(c.poly):
+                    # `a if a > b else b` is max(a, b), `a if a < b else b` is min(a, b) (and the
+                    # mirrored spellings): the comparison's polynomial is the arms' difference
+                    try:
+                        pa = a if isinstance(a, P) else ev.to_poly(None, a, None)
+                        pb = b if isinstance(b, P) else ev.to_poly(None, b, None)
+                        diff = T.p_add(pa, pb, -1)
+                        neg = T.p_add(pb, pa, -1)
+                        op = None
+                        if c.poly == diff:
+                            op = "max" if c.op in (">", ">=") else "min"
+                        elif c.poly == neg:
+                            op = "min" if c.op in (">", ">=") else "max"
+                        if op is not None and pa.kind == pb.kind:
+                            return self.term(App(op, (pa, pb), ()))
+                    except (AnalysisError, Dead, AttributeError, TypeError):
+                        pass
                 return ev.mk_ite(st, c, a, b)
             args = [self.term(a) if isinstance(a, Term) else a for a in t.args]
             if t.op == "div" and isinstance(args[1], P) and args[1].is_const() and args[1].const_value() != 0:
